@@ -223,9 +223,10 @@ def post_triangle_contains(ctx, call):
 def install(ctx):
     import geometer.shapes as Sh
 
-    core.wrap_method(Sh.SegmentTensor, "contains", post_segment_contains)
-    core.wrap_method(Sh.PolygonTensor, "contains", post_polygon_contains)
     core.wrap_method(Sh.Triangle, "contains", post_triangle_contains)
+    # ... and every other class of the tree that defines contains itself (overrides added by a refactor included)
+    core.wrap_method_everywhere(Sh.SegmentTensor, "contains", post_segment_contains)
+    core.wrap_method_everywhere(Sh.PolygonTensor, "contains", post_polygon_contains)
 
 
 # ---------------------------------------------------------------------------------
@@ -292,6 +293,20 @@ def g_polygons2d(ctx, rng, i):
     if is_tri:
         # the generic polygon code path on the same triangle
         _try(g.Polygon(*[g.Point(h) for h in H]).contains, g.PointCollection(qs))
+    # integer objects queried point by point and in small collections (other numerical kernels than for the full grid): all lattice
+    # points of the edges, a few inside and outside
+    Vi = [np.asarray(v, dtype=int) for v in V]
+    pint = (g.Triangle if is_tri else g.Polygon)(*[g.Point(np.append(v, 1)) for v in Vi])
+    edge_pts = []
+    for k in range(len(Vi)):
+        a_, b_ = Vi[k], Vi[(k + 1) % len(Vi)]
+        gcd = int(np.gcd.reduce(np.abs(b_ - a_))) or 1
+        edge_pts += [np.append(a_ + (b_ - a_) // gcd * j, 1) for j in range(gcd)]
+    pick = [edge_pts[int(j)] for j in rng.choice(len(edge_pts), size=min(10, len(edge_pts)), replace=False)]
+    pick += [np.asarray(Q[int(j)], dtype=int) for j in rng.choice(len(Q), size=4)]
+    for q in pick:
+        _try(pint.contains, g.Point(q))
+    _try(pint.contains, g.PointCollection(np.array(pick)))
     # the polygon moved after it has been queried (objects returned by the library: translation, integer affine map), same questions
     t = gen.coords(rng, (2,), 9, "int")
     M = np.eye(3, dtype=int)
